@@ -98,7 +98,10 @@ pub fn qr_json(qr: &QRCode) -> Value {
     let modules = qr_modules(qr);
     let (vals, types) = pack_matrix(&modules, n);
     let tail_clean = qr.data[n * n..].iter().all(|m| m.0 == 0);
+    // the public row accessor (Index<usize>) read cell by cell, against the backing array the projection above is taken from
+    let rows_agree = std::panic::catch_unwind(|| (0..n).all(|r| { let row = &qr[r]; row.len() == n && (0..n).all(|c| row[c].0 == modules[r * n + c]) })).unwrap_or(false);
     json!({
+        "rows_agree": rows_agree,
         "kind": "Ok",
         "size": n,
         "version": qr.version.map(|v| v as i64 + 1).unwrap_or(-1),
